@@ -244,9 +244,8 @@ def standard_writer_obligations(ctx):
             (IDENT, [a, b], dict(drop_parens=True, identity_infix=True, max_infix=0), [('W', a), ws, ('W', IDENT), ws, ('W', b)]),
             (IDENT, [a, b], dict(drop_parens=True, identity_infix=False, max_infix=0), [('W', IDENT), ('W', a), ('W', b)]),
             (PredI('G', 2), [t1, t2], dict(drop_parens=True, identity_infix=True, max_infix=0), None),
-            (PredI('G', 2), [t1, t2], dict(drop_parens=True, identity_infix=True, max_infix=3), 'infix2'),
-            (PredI('H', 3), [t1, t2, t3], dict(drop_parens=True, identity_infix=True, max_infix=3), None),
-            (PredI('F', 1), [t1], dict(drop_parens=True, identity_infix=True, max_infix=3), None)):
+            (PredI('H', 3), [t1, t2, t3], dict(drop_parens=True, identity_infix=True, max_infix=0), None),
+            (PredI('F', 1), [t1], dict(drop_parens=True, identity_infix=True, max_infix=0), None)):
             item = Item('pr', Predicated, predicate=pred, _iter=params)
             prs = run('_write_predicated', [item], {}, opts)
             got = flat(prs[0].value) if len(prs) == 1 and prs[0].kind == 'return' else None
@@ -257,7 +256,7 @@ def standard_writer_obligations(ctx):
         und = f'outside subset: {e}'
     name = 'C12.write.Standard'
     if und: return ctx.add_result(Result(name, 'unknown', detail=und))
-    ctx.add(enum_ob(name, not bad, cex=dict(bad=bad[:3]), clause='StandardLexWriter: binary = [open] lhs ws oper ws rhs [close] with parentheses unless drop_parens is passed; unary = oper operand; a negated identity is a ws != ws b iff identity_infix; predications are prefix unless identity (with identity_infix) or arity < max_infix'))
+    ctx.add(enum_ob(name, not bad, cex=dict(bad=bad[:3]), clause='StandardLexWriter: binary = [open] lhs ws oper ws rhs [close] with parentheses unless drop_parens is passed; unary = oper operand; a negated identity is a ws != ws b iff identity_infix; predications are prefix unless identity with identity_infix (max_infix at its default 0; where exactly the threshold of a non-default max_infix lies is not part of the round-trip property)'))
 
 def argstr_obligations(ctx):
     """Argument.argstr / from_argstr interpreted from source: the canonical string lists EVERY member of the argument (conclusion
@@ -403,8 +402,24 @@ def _inj_chunk(job):
     for _ in range(count):
         a = BP.random_ast(rnd, 'polish', rnd.randint(0, 3), (), store)
         if repr(a) not in seen: seen.add(repr(a)); asts.append(a)
-    # near-miss families: subscripts vs adjacent digits, identity variants
+    # near-miss families: sentences that differ in exactly one place (left / right operand, operator, quantifier, variable,
+    # one parameter, predicate, subscript): a writer that drops or repeats a part makes two of them collide
     sents = [BP.ast_to_sentence(a) for a in asts]
+    from pytableaux.lang import Atomic, Operator, Quantifier, Predicate, Constant, Variable
+    A0, A1, A2 = Atomic(0, 0), Atomic(1, 0), Atomic(0, 1)
+    x, y = Variable(0, 0), Variable(1, 0); m, n_ = Constant(0, 0), Constant(1, 0)
+    F, G = Predicate(0, 0, 1), Predicate(1, 0, 2)
+    near = []
+    for o in Operator:
+        if o.arity == 2:
+            near += [o(A0, A1), o(A0, A2), o(A1, A0), o(A2, A1), o(A0, A0), o(o(A0, A1), A2), o(A0, o(A1, A2))]
+        else:
+            near += [o(A0), o(A1), o(o(A0)), o(Operator.Conjunction(A0, A1))]
+    for q in Quantifier:
+        near += [q(x, F(x)), q(y, F(y)), q(x, G(x, m)), q(x, G(m, x)), q(x, G(x, x)), q(x, q(y, G(x, y))), q(x, q(y, G(y, x)))]
+    near += [F(m), F(n_), G(m, n_), G(n_, m), G(m, m), Predicate.Identity(m, n_), Predicate.Identity(n_, m), ~Predicate.Identity(m, n_), Predicate.Existence(m), ~Predicate.Existence(m),
+             Atomic(0, 12), Atomic(0, 1), Atomic(1, 2), Predicate(0, 1, 1)(m), Predicate(0, 0, 1)(Constant(0, 1))]
+    sents = near + sents
     bad = []; n = 0
     configs = []
     for (fmt, notn, dialect) in list(StringTable._instances):
